@@ -15,7 +15,10 @@ LEVEL_TEXT = (
     'Each generated abstract stylesheet (style/@media incl. nested/@import/@namespace/@page with margin boxes/@font-face/@charset/unknown '
     'rules/comments; CSS3 selectors; values of all component kinds with space/comma/slash separators) is rendered in 9 spellings '
     '(neutral, one per spelling axis, all axes at once) and each rendering is parsed by the real parser; the projection of the DOM is '
-    'compared with the independently computed expectation, also under parseComments=False and validate=False.'
+    'compared with the independently computed expectation, also under parseComments=False and validate=False. Every third sheet is also '
+    'brought in through each documented door (bytes, explicit encoding, parseFile, parseUrl, CSSStyleSheet.cssText, cssutils.parseString, a '
+    'parser used before) and every second one feeds a re-assignment stream: rule.cssText = <another rule of its kind> on live rules of a parsed '
+    'sheet and on freshly constructed rule objects must leave exactly what the new text denotes.'
 )
 LEVEL_NOTE = 'trusted: gen/sheets.py (abstract grammar, renderer, expectation) and models/projection.py (reads the DOM through accessors and seq items)'
 TECHNIQUE = 'runtime monitoring: construction oracle + metamorphic spelling invariance over generated stylesheets'
@@ -29,8 +32,8 @@ ASSUMPTIONS = [
     'a comment directly after a declaration value belongs to that declaration (only comments after { or ; are block items)',
     'zero with a length unit equals unit-less zero (stated by C18)',
 ]
-MIN_EVENTS = {'quick': {'oracle.construction': 15000, 'oracle.nocomments': 1000, 'oracle.novalidate': 1000},
-              'thorough': {'oracle.construction': 400000, 'oracle.nocomments': 30000, 'oracle.novalidate': 30000}}
+MIN_EVENTS = {'quick': {'oracle.construction': 15000, 'oracle.nocomments': 1000, 'oracle.novalidate': 1000, 'oracle.entry-point': 3000, 'oracle.reassign': 5000},
+              'thorough': {'oracle.construction': 400000, 'oracle.nocomments': 30000, 'oracle.novalidate': 30000, 'oracle.entry-point': 70000, 'oracle.reassign': 120000}}
 
 AXES = ['neutral', 'ws', 'ws-min', 'comments', 'case', 'quotes', 'escapes', 'numspell', 'semicolons', 'all']
 
@@ -92,6 +95,145 @@ def judge(ctx, cssutils, parser, stmts, axis, rng, opts=(True, True), sample=Fal
         ctx.sample({'axis': axis, 'text': text})
 
 
+ENTRY_POINTS = ['bytes', 'file', 'url', 'sheet-text', 'module', 'parser-reused', 'string-encoding-arg']
+KIND_OF = {'style': 'CSSStyleRule', 'media': 'CSSMediaRule', 'page': 'CSSPageRule', 'fontface': 'CSSFontFaceRule', 'import': 'CSSImportRule',
+           'unknown': 'CSSUnknownRule', 'comment': 'CSSComment', 'charset': 'CSSCharsetRule'}  # fmt: skip
+
+
+def entry_points(ctx, cssutils, stmts, axis, rng, tmpdir):
+    """the same source through every documented way in: the DOM is the one the source denotes whichever door it came through"""
+    import os
+
+    text, rfeats = G.render2(stmts, G.style_with(axis), rng)
+    enc = stmts[0][1] if stmts and stmts[0][0] == 'charset' else 'utf-8'
+    try:
+        data = text.encode(enc)
+    except UnicodeError:
+        ctx.count('entry.skipped-not-encodable')
+        return
+    exp = P_norm(G.expected(stmts, comments=True))
+    base = features_of(stmts, axis) | rfeats
+    try:
+        core.canonical_state(cssutils)
+        if P_norm(P.project(cssutils.CSSParser().parseString(text))) != exp:
+            ctx.count('entry.skipped-baseline-differs')  # the plain parse is wrong already: reported by the construction oracle
+            return
+    except Exception:
+        ctx.count('entry.skipped-baseline-differs')
+        return
+    reused = cssutils.CSSParser()
+    reused.parseString('a{left:0}@media tv{b{top:0}}/*c*/')
+    for how in ENTRY_POINTS:
+        feats = base | {'entry.' + how}
+        case = {'kind': 'entry', 'how': how, 'text': text, 'encoding': enc, 'axis': axis, 'abstract': stmts, 'features': sorted(feats)}
+        ctx.count('evaluations')
+        try:
+            core.canonical_state(cssutils)
+            sheet = open_by(cssutils, how, text, data, enc, tmpdir, reused)
+            got = P.project(sheet, comments=True)
+        except Exception as e:
+            ctx.violation('exception', case, {'tb': core.short_tb(e)}, features=feats, site=core.raise_site(e))
+            continue
+        ctx.count('oracle.entry-point')
+        ctx.count('entry.' + how)
+        want = exp
+        if how == 'string-encoding-arg':
+            # documented: an explicit encoding is recorded in the sheet as its @charset rule
+            want = [['charset', enc.lower()]] + [x for x in exp if x[0] != 'charset']
+        d = P.diff(P_norm(got), want)
+        if len(stmts) >= 2:
+            ctx.seen([core.h8(repr(stmts)), axis, how])
+        if d is not None:
+            ctx.violation('entry-point', case, {'diff': d}, features=feats)
+
+
+def open_by(cssutils, how, text, data, enc, tmpdir, reused=None):
+    import os
+
+    if how == 'bytes':
+        return cssutils.CSSParser().parseString(data)
+    if how == 'string-encoding-arg':
+        return cssutils.CSSParser().parseString(data, encoding=enc)
+    if how == 'file':
+        path = os.path.join(tmpdir, 'c02-entry.css')
+        with open(path, 'wb') as f:
+            f.write(data)
+        return cssutils.CSSParser().parseFile(path)
+    if how == 'url':
+        main = 'http://verif.example/dir/sheet.css'
+        return cssutils.CSSParser(fetcher=lambda url: (None, data) if url == main else (None, b'')).parseUrl(main)
+    if how == 'sheet-text':
+        sheet = cssutils.css.CSSStyleSheet()
+        sheet.cssText = text
+        return sheet
+    if how == 'module':
+        return cssutils.parseString(text)
+    if how == 'parser-reused':
+        return (reused or cssutils.CSSParser()).parseString(text)
+    raise ValueError(how)
+
+
+def flat_rules(rules):
+    for r in rules:
+        yield r
+        if type(r).__name__ == 'CSSMediaRule':
+            yield from flat_rules(r.cssRules)
+
+
+def reassign(ctx, cssutils, stmts_a, stmts_b, axis, rng):
+    """rule.cssText = <text of another rule of its kind> and <Class>(cssText=...): the object then denotes the new text and nothing of the old"""
+    core.canonical_state(cssutils)
+    try:
+        sheet = cssutils.CSSParser().parseString(G.render(stmts_a, G.style_with('neutral'), rng))
+    except Exception:
+        return
+    style = G.style_with(axis)
+    by_kind = {}
+    for st in stmts_b:
+        by_kind.setdefault(KIND_OF.get(st[0]), []).append(st)
+    live = list(flat_rules(sheet.cssRules))
+    targets = [(r, 'live') for r in live]
+    for cls in by_kind:
+        if cls and cls != 'CSSComment':
+            targets.append((getattr(cssutils.css, cls)(), 'fresh'))
+    for r, origin in targets:
+        cls = type(r).__name__
+        for st in by_kind.get(cls, [])[:2]:
+            if cls == 'CSSUnknownRule':
+                # another at-keyword is another kind of rule (InvalidModificationErr by design)
+                if origin == 'fresh':
+                    r = cssutils.css.CSSUnknownRule()
+                elif (r.atkeyword or '').lower() != '@' + st[1].lower():
+                    continue
+            text, rfeats = G.render2([st], style, rng)
+            text = text.strip()
+            exp = P_norm(G.expected([st], comments=True))
+            try:
+                core.canonical_state(cssutils)
+                if P_norm(P.project(cssutils.CSSParser().parseString(text))) != exp:
+                    ctx.count('reassign.skipped-baseline-differs')
+                    continue
+            except Exception:
+                ctx.count('reassign.skipped-baseline-differs')
+                continue
+            feats = features_of([st], axis) | rfeats | {'reassign.' + origin, 'reassign.' + st[0]}
+            case = {'kind': 'reassign', 'origin': origin, 'old_text': r.cssText if origin == 'live' else '', 'text': text, 'axis': axis, 'abstract': [st], 'features': sorted(feats)}
+            ctx.count('evaluations')
+            try:
+                core.canonical_state(cssutils)
+                r.cssText = text
+                got = P.p_rules([r], True)
+            except Exception as e:
+                ctx.violation('exception', case, {'tb': core.short_tb(e)}, features=feats, site=core.raise_site(e))
+                continue
+            ctx.count('oracle.reassign')
+            ctx.count('reassign.' + origin + '.' + st[0])
+            ctx.seen([core.h8(repr(st)), axis, origin, 'reassign'])
+            d = P.diff(P_norm(got), exp)
+            if d is not None:
+                ctx.violation('reassign', case, {'diff': d}, features=feats)
+
+
 def P_norm(x):
     """tuples/lists unified so that projections from both sides compare structurally"""
     if isinstance(x, (list, tuple)):
@@ -108,6 +250,9 @@ def run_worker(ctx):
         (False, True): cssutils.CSSParser(parseComments=False),
         (True, False): cssutils.CSSParser(validate=False),
     }
+    import tempfile, shutil
+
+    tmpdir = tempfile.mkdtemp(prefix='verif-c02-')
     n = 2500 if ctx.tier == 'quick' else 60000
     for i in range(n):
         if not ctx.mine(i):
@@ -120,6 +265,13 @@ def run_worker(ctx):
         axis = rng.choice(AXES)
         judge(ctx, cssutils, parsers[(False, True)], stmts, axis, ctx.rng('render-nc', i), opts=(False, True))
         judge(ctx, cssutils, parsers[(True, False)], stmts, axis, ctx.rng('render-nv', i), opts=(True, False))
+        if i % 3 == 0:
+            entry_points(ctx, cssutils, stmts, rng.choice(['neutral', 'all', axis]), ctx.rng('entry', i), tmpdir)
+        if i % 2 == 0:
+            g1 = G.Gen(ctx.rng('re-a', i), hostile=False, namespaces=False)
+            g2 = G.Gen(ctx.rng('re-b', i), hostile=False, namespaces=False)
+            reassign(ctx, cssutils, g1.sheet(), g2.sheet(), rng.choice(AXES), ctx.rng('re-r', i))
+    shutil.rmtree(tmpdir, ignore_errors=True)
 
 
 def replay(ctx, case):
@@ -137,6 +289,32 @@ def replay(ctx, case):
             d = P.diff(P_norm(got), P_norm(other))
             if d is not None:
                 ctx.violation('projection-vs-construction', case, {'diff': d}, features=feats)
+        return
+    if case.get('kind') == 'entry':
+        import tempfile, shutil
+
+        tmpdir = tempfile.mkdtemp(prefix='verif-c02-')
+        try:
+            core.canonical_state(cssutils)
+            text = case['text']
+            sheet = open_by(cssutils, case['how'], text, text.encode(case['encoding']), case['encoding'], tmpdir)
+            d = P.diff(P_norm(P.project(sheet)), P_norm(G.expected(tuplify(case['abstract']), comments=True)))
+            if d is not None:
+                ctx.violation('entry-point', case, {'diff': d}, features=case.get('features', []))
+        finally:
+            shutil.rmtree(tmpdir, ignore_errors=True)
+        return
+    if case.get('kind') == 'reassign':
+        core.canonical_state(cssutils)
+        st = tuplify(case['abstract'])[0]
+        if case['origin'] == 'live':
+            r = cssutils.parseString(case['old_text']).cssRules[0]
+        else:
+            r = getattr(cssutils.css, KIND_OF[st[0]])()
+        r.cssText = case['text']
+        d = P.diff(P_norm(P.p_rules([r], True)), P_norm(G.expected([st], comments=True)))
+        if d is not None:
+            ctx.violation('reassign', case, {'diff': d}, features=case.get('features', []))
         return
     opts = tuple(case.get('opts', (True, True)))
     parser = cssutils.CSSParser(parseComments=opts[0], validate=opts[1])
